@@ -1213,6 +1213,68 @@ theorem treeEq_meaning {st st' : Store} {d : Nat} {a b : NodeId} (hte : Go.TreeE
   exact Inv.evalFuel_sim env (st.map preNorm) (st.map midNorm) (permStore_pre_mid st) (storeWF_preNorm hst) fuel
     [] a j j (Inv.permJson_refl j) hj
 
+/-! ### all three steps at fixed ids -/
+
+theorem NodeSim.refl_eq (n : Node) : NodeSim Eq n n where
+  scal := rfl
+  allOf := listRel_eq_refl _
+  anyOf := optListRel_eq_refl _
+  oneOf := optListRel_eq_refl _
+  not := optRel_eq_refl _
+  if_ := optRel_eq_refl _
+  then_ := optRel_eq_refl _
+  else_ := optRel_eq_refl _
+  prefixItems := listRel_eq_refl _
+  items := optRel_eq_refl _
+  itemsArray := optListRel_eq_refl _
+  additionalItems := optRel_eq_refl _
+  contains := optRel_eq_refl _
+  unevaluatedItems := optRel_eq_refl _
+  properties := fun _ => optRel_eq_refl _
+  patternProperties := keyRel_eq_refl _
+  additionalProperties := optRel_eq_refl _
+  propertyNames := optRel_eq_refl _
+  unevaluatedProperties := optRel_eq_refl _
+  dependentSchemas := keyRel_eq_refl _
+  dependencySchemas := keyRel_eq_refl _
+
+/-- "properties" in emission order is invisible to `evalStep` -/
+theorem midNorm_normNode (n : Node) : NodeSim Eq (midNorm n) (Go.normNode n) :=
+  NodeSim.of_props (Go.normProps n.properties (n.propertyOrder.getD [])) (by rw [← normNode_eq]; exact NodeSim.refl_eq _)
+    fun k => (lookup_normProps n.properties _ k).symm
+
+/-- two rewritings of every schema object that `evalStep` cannot tell apart: same ids, same tables -/
+theorem envSim_map₂ (env : Spec.Env) (st : Store) (f g : Node → Node) (hfg : ∀ n, NodeSim Eq (f n) (g n)) :
+    EnvSim Eq { env with st := st.map f } { env with st := st.map g } where
+  draft := rfl
+  reMatch := rfl
+  node := fun a b h => by
+    subst h
+    show OptRel _ (Store.get? (st.map f) a) (Store.get? (st.map g) a)
+    rw [get?_map, get?_map]
+    cases st.get? a with
+    | none => trivial
+    | some n => exact hfg n
+  ref := fun a b _ h _ _ => by
+    subst h
+    exact optRel_eq_refl _
+  dyn := fun a b _ h _ _ => by
+    subst h
+    refine ⟨optRel_eq_refl _, rfl, fun sc₁ sc₂ hsc => ?_⟩
+    rw [listRel_eq hsc]
+    exact optRel_eq_refl _
+
+/-- **`Go.normNode` at every schema object of the store is invisible to the Spec**, up to the order in which evaluated
+    property names are listed: same ids, same tables, any scope -/
+theorem normNode_invisible (env : Spec.Env) (st : Store) (hst : Refine.StoreWF st) (fuel : Nat) (scope : List NodeId)
+    (s : NodeId) (j : Json) (hj : Json.WF j = true) :
+    Inv.OutSim (Spec.evalFuel { env with st := st } fuel scope s j)
+      (Spec.evalFuel { env with st := st.map Go.normNode } fuel scope s j) := by
+  rw [evalFuel_map env st preNorm preNorm_invisible fuel scope s j,
+    ← evalFuel_sim (envSim_map₂ env st midNorm Go.normNode midNorm_normNode) fuel (listRel_eq_refl scope) rfl j]
+  exact Inv.evalFuel_sim env (st.map preNorm) (st.map midNorm) (permStore_pre_mid st) (storeWF_preNorm hst) fuel
+    scope s j j (Inv.permJson_refl j) hj
+
 /-! ## a checker for `NodeSim` on concrete schema objects -/
 
 def listRelB {α β : Type} (r : α → β → Bool) : List α → List β → Bool
